@@ -1,31 +1,227 @@
 package schedule
 
-import "time"
+import (
+	"time"
 
-// C01 const.count / const.time: NewConst(ops, dur) for every valid ops,dur; token k arbitrary.
-func HarnessC01ConstProbe() {
-	ops := vNondetRatio("ops", 0, 16_000_000, 16)         // [0, 1e6] in 1/16 steps
-	dur := time.Duration(vNondetInt("dur", 1_000_000, 3_600_000_000_000))
+	"github.com/yandex/pandora/core"
+)
+
+// ---- C01: const / line / step / once profiles realise the configured load ----
+// Floats are encoded as exact reals (see DESIGN 2.3); rates are q/16 so that a model is an
+// exactly representable float64 for the native replay.
+
+func c01Dur() time.Duration {
+	sec := vNondetInt("sec", 0, 3600)
+	ns := vNondetInt("ns", 0, 999_999_999)
+	dur := time.Duration(sec*1_000_000_000 + ns)
+	vAssume(dur >= time.Millisecond)
+	return dur
+}
+
+// const: count = floor(ops*dur), token k at floor(k/ops) ns, inside [0,dur]; finish = t0+dur.
+func HarnessC01Const() {
+	ops := vNondetRatio("ops", 0, 16_000_000, 16) // [0, 1e6]
+	dur := c01Dur()
 	t0 := vNondetTime("t0")
-	s := NewConst(ops, dur).(*doAtSchedule)
+	sch := NewConst(ops, dur)
+	vCheck("const.left.before.start", int64(sch.Left()) == sch.(*doAtSchedule).n)
+	s := sch.(*doAtSchedule)
 	n := s.n
+	vObserve("n", n)
 	vCheck("const.n.nonneg", n >= 0)
-	// n == floor(ops*dur/1e9)
 	I := ops * float64(dur) / 1e9
 	vCheck("const.count.lower", float64(n) <= I)
 	vCheck("const.count.upper", I < float64(n)+1)
 	s.Start(t0)
 	k := vNondetInt("k", 0, 1<<53)
-	vAssume(k < n)
 	s.i.Store(k)
 	tx, ok := s.Next()
-	vCheck("const.ok", ok)
+	if k < n {
+		vCheck("const.ok", ok)
+		off := vTimeNs(tx) - vTimeNs(t0)
+		vObserve("off", off)
+		vCheck("const.time.after.start", off >= 0)
+		vCheck("const.time.before.end", off <= int64(dur))
+		exact := float64(k) * 1e9 / ops
+		vCheck("const.time.lo", float64(off) <= exact)
+		vCheck("const.time.hi", exact < float64(off)+1)
+		vReach("token")
+	} else {
+		vCheck("const.finish.notok", !ok)
+		vCheck("const.finish.time", vTimeNs(tx) == vTimeNs(t0)+int64(dur))
+		vReach("finish")
+	}
+}
+
+// line.count: n = floor((from+to)/2 * dur).
+func HarnessC01LineCount() {
+	from := vNondetRatio("from", 0, 160_000, 16)
+	to := vNondetRatio("to", 0, 160_000, 16)
+	vAssume(from != to)
+	dur := c01Dur()
+	s := NewLine(from, to, dur).(*doAtSchedule)
+	n := s.n
+	vObserve("n", n)
+	I := (from + to) / 2 * float64(dur) / 1e9
+	vCheck("line.count.lower", float64(n) <= I)
+	vCheck("line.count.upper", I < float64(n)+1)
+	vCheck("line.duration", s.duration == dur)
+	vReach("end")
+}
+
+// line.time: token k is at the (unique) instant x in [0,dur] with from*x + a*x^2/2 = k,
+// a = (to-from)/dur, up to 1 microsecond; never before start or after start+dur.
+func HarnessC01LineTime() {
+	from := vNondetRatio("from", 0, 16_000, 16)
+	to := vNondetRatio("to", 0, 16_000, 16)
+	vAssume(from != to)
+	dur := c01Dur()
+	t0 := vNondetTime("t0")
+	s := NewLine(from, to, dur).(*doAtSchedule)
+	n := s.n
+	s.Start(t0)
+	k := vNondetInt("k", 0, 1<<40)
+	vAssume(k < n)
+	// (k < n stated on the real integral as well: the harness runs with relaxed truncation,
+	// where n is only known to lie in (I-1, I])
+	vAssume(float64(k)+1 <= (from+to)/2*float64(dur)/1e9)
+	s.i.Store(k)
+	tx, ok := s.Next()
+	vCheck("line.ok", ok)
 	off := vTimeNs(tx) - vTimeNs(t0)
-	vCheck("const.time.after.start", off >= 0)
-	vCheck("const.time.before.end", off <= int64(dur))
-	// earliest instant at which ops*t >= k  : t = k/ops ; allow 1ns truncation
-	exact := float64(k) * 1e9 / ops
-	vCheck("const.time.trunc.lo", float64(off) <= exact)
-	vCheck("const.time.trunc.hi", exact < float64(off)+1)
+	vObserve("off", off)
+	vCheck("line.time.after.start", off >= 0)
+	vCheck("line.time.before.end", off <= int64(dur))
+	// oracle: x seconds, 0 <= x <= xn, F(x) = k
+	xn := float64(dur) / 1e9
+	a := (to - from) / xn
+	var x float64
+	if vNative() {
+		// native replay: bisection for the root of F(x) = k on [0, xn] (F is non-decreasing there)
+		lo, hi := 0.0, xn
+		for it := 0; it < 200; it++ {
+			mid := (lo + hi) / 2
+			if a*mid*mid/2+from*mid < float64(k) {
+				lo = mid
+			} else {
+				hi = mid
+			}
+		}
+		x = hi
+	} else {
+		x = vNondetReal("x")
+		vAssume(x >= 0 && x <= xn)
+		vAssume(a*x*x/2+from*x == float64(k))
+	}
+	d := float64(off) - x*1e9
+	vCheck("line.time.close.lo", d > -1000)
+	vCheck("line.time.close.hi", d < 1000)
+	vReach("end")
+}
+
+// line with from == to is the const profile.
+func HarnessC01LineFlat() {
+	r := vNondetRatio("r", 0, 160_000, 16)
+	dur := c01Dur()
+	s := NewLine(r, r, dur).(*doAtSchedule)
+	I := r * float64(dur) / 1e9
+	vCheck("flat.count.lower", float64(s.n) <= I)
+	vCheck("flat.count.upper", I < float64(s.n)+1)
+	vReach("end")
+}
+
+// once: all tokens at the start instant, finish = start.
+func HarnessC01Once() {
+	n := vNondetInt("n", 0, 1<<40)
+	t0 := vNondetTime("t0")
+	sch := NewOnce(n)
+	vCheck("once.left", int64(sch.Left()) == n)
+	s := sch.(*doAtSchedule)
+	s.Start(t0)
+	k := vNondetInt("k", 0, 1<<41)
+	s.i.Store(k)
+	tx, ok := s.Next()
+	vCheck("once.ok.iff", ok == (k < n))
+	vCheck("once.time", vTimeNs(tx) == vTimeNs(t0))
+	vReach("end")
+}
+
+// step: the succession of one const profile per level (<= 4 levels).
+func HarnessC01Step() {
+	from := vNondetRatio("from", 0, 1600, 16)
+	step := vNondetInt("step", 1, 50)
+	to := vNondetRatio("to", 0, 1600, 16)
+	vAssume(from <= to)
+	vAssume(to-from < float64(4*step))
+	dur := c01Dur()
+	t0 := vNondetTime("t0")
+	sch := NewStep(from, to, step, dur)
+	// expected levels
+	var rates []float64
+	if from == to {
+		rates = []float64{from}
+	} else {
+		for r := from; r <= to; r += float64(step) {
+			rates = append(rates, r)
+		}
+	}
+	L := len(rates)
+	vObserve("levels", int64(L))
+	var parts []core.Schedule
+	switch s := sch.(type) {
+	case *compositeSchedule:
+		parts = append(parts, s.scheds...)
+	default:
+		parts = []core.Schedule{sch}
+	}
+	vCheck("step.levels", len(parts) == L)
+	if len(parts) != L {
+		return
+	}
+	total := int64(0)
+	for j, p := range parts {
+		d := p.(*doAtSchedule)
+		I := rates[j] * float64(dur) / 1e9
+		vCheck("step.part.count.lower", float64(d.n) <= I)
+		vCheck("step.part.count.upper", I < float64(d.n)+1)
+		vCheck("step.part.duration", d.duration == dur)
+		total += d.n
+	}
+	vCheck("step.left.total", int64(sch.Left()) == total)
+	sch.Start(t0)
+	// exhaust part j, then ask the composite for the next token: it must be the first token
+	// of the next non-empty part, at t0 + (index of that part)*dur; at the end: finish time.
+	for j := 0; j < L; j++ {
+		d := parts[j].(*doAtSchedule)
+		d.i.Store(d.n)
+	}
+	tx, ok := sch.Next()
+	vCheck("step.finish.notok", !ok)
+	vCheck("step.finish.time", vTimeNs(tx) == vTimeNs(t0)+int64(L)*int64(dur))
+	vReach("end")
+}
+
+// step: the first token of part j+1 comes exactly at the finish of part j.
+func HarnessC01StepBoundary() {
+	from := vNondetRatio("from", 16, 1600, 16)
+	step := vNondetInt("step", 1, 50)
+	dur := c01Dur()
+	vAssume(from*float64(dur)/1e9 >= 1) // every level has at least one token
+	t0 := vNondetTime("t0")
+	to := from + float64(2*step) // three levels
+	sch := NewStep(from, to, step, dur).(*compositeSchedule)
+	parts := append([]core.Schedule{}, sch.scheds...)
+	vCheck("stepb.levels", len(parts) == 3)
+	if len(parts) != 3 {
+		return
+	}
+	sch.Start(t0)
+	for j := 0; j < 2; j++ {
+		d := parts[j].(*doAtSchedule)
+		d.i.Store(d.n) // part j exhausted
+		tx, ok := sch.Next()
+		vCheck("stepb.next.ok", ok)
+		vCheck("stepb.next.time", vTimeNs(tx) == vTimeNs(t0)+int64(j+1)*int64(dur))
+	}
 	vReach("end")
 }
